@@ -249,10 +249,18 @@ func fieldDiffDetail(a, b map[string]string, fs []string) string {
 
 func genMode(s *hxsh.Scratch, o hx.Opts) {
 	storage := storageOnly(o.In)
+	// the pinned histories first, under every option variant of the rig
+	for _, e := range hxsh.LoadRegress("c30") {
+		if e.Kind != "hist" || len(e.Progs) < 2 {
+			continue
+		}
+		for v := 0; v < 4; v++ {
+			histCase(s, storage, e.Progs[:len(e.Progs)-1], e.Progs[len(e.Progs)-1], v, []string{"pinned:" + e.Name})
+		}
+	}
 	g := hxsh.NewGen(hx.Rand(o.Seed, 30))
 	for i := 0; i < o.N; i++ {
 		nh := 1 + g.R.IntN(6)
-		ob := histObs{Fails: []string{}, Feats: []string{}, Dirtied: []string{}}
 		feats := map[string]bool{}
 		var hist []string
 		for j := 0; j < nh; j++ {
@@ -261,20 +269,31 @@ func genMode(s *hxsh.Scratch, o hx.Opts) {
 				feats[f] = true
 			}
 			hist = append(hist, src)
-			ob.Hist = append(ob.Hist, hx.Hex(src))
 		}
 		p := g.Probe()
-		ob.P = hx.Hex(p)
-		ob.Key = fmt.Sprintf("%x", hashStr(strings.Join(hist, "\x00")+"\x01"+p))
+		fl := []string{}
 		for f := range feats {
-			ob.Feats = append(ob.Feats, f)
+			fl = append(fl, f)
 		}
-		sort.Strings(ob.Feats)
+		sort.Strings(fl)
+		histCase(s, storage, hist, p, i, fl)
+	}
+}
+
+func histCase(s *hxsh.Scratch, storage map[string]bool, hist []string, p string, i int, feats []string) {
+	nh := len(hist)
+	ob := histObs{Fails: []string{}, Feats: feats, Dirtied: []string{}}
+	for _, src := range hist {
+		ob.Hist = append(ob.Hist, hx.Hex(src))
+	}
+	ob.P = hx.Hex(p)
+	ob.Key = fmt.Sprintf("%x", hashStr(strings.Join(hist, "\x00")+"\x01"+p+fmt.Sprint(i%4)))
+	{
 		pf, err := hxsh.Parse(p)
 		if err != nil {
 			ob.Skip = "parse P: " + err.Error()
 			hx.Emit(ob)
-			continue
+			return
 		}
 		// --- reused runner
 		ctx, cancel := hxsh.CaseCtx(nh + 2)
@@ -298,7 +317,7 @@ func genMode(s *hxsh.Scratch, o hx.Opts) {
 			ob.Skip = bad
 			hx.Emit(ob)
 			cancel()
-			continue
+			return
 		}
 		dirty := snap(r1.r)
 		s.Wipe()
@@ -321,7 +340,7 @@ func genMode(s *hxsh.Scratch, o hx.Opts) {
 		if oc1.Bad() || oc2.Bad() {
 			ob.Skip = "P run: " + oc1.String() + " / " + oc2.String()
 			hx.Emit(ob)
-			continue
+			return
 		}
 		ob.Dirtied = hxsh.DiffFields(snapF, dirty, storage)
 		ob.Status, ob.OutLen = oc2.Status, len(o2)
@@ -390,6 +409,13 @@ func incrMode(s *hxsh.Scratch, o hx.Opts) {
 	g := hxsh.NewGen(hx.Rand(o.Seed, 3002))
 	for i, src := range incrPinned {
 		incrCase(s, storage, src, i, []string{"pinned"})
+	}
+	for _, e := range hxsh.LoadRegress("c30") {
+		if e.Kind == "incr" && len(e.Progs) == 1 {
+			for v := 0; v < 4; v++ {
+				incrCase(s, storage, e.Progs[0], v, []string{"pinned:" + e.Name})
+			}
+		}
 	}
 	for i := 0; i < o.N; i++ {
 		src := g.Program(2 + g.R.IntN(9))
